@@ -568,6 +568,7 @@ def c13(res, tier, rng, wd):
     run_e2(res, "C13", ser, wd, "c13serial")
     run_e2(res, "C13", e2.sim_scripts(wd, "serial", 4000 if tier == "thorough" else 500, res.seed + 2), wd, "c13simserial")
     # the RTU server task: open / session / re-open loop, shutdown and handle drop from every state
+    design_rtu_server_task(res, "C13", [], ["ShutdownHonoured", "ShutdownPrompt", "DoneIsFinal"], tier == "thorough", neg=True)
     run_rtu_task(res, "C13", e1.gen_rtu_task_random(rng, 1500 if tier == "thorough" else 200), wd, "c13rtuserver")
     # black-box: the TLS channel against a peer that accepts TCP and never starts the handshake
     run_e4(res, "C13", e4.gen_tls_client_stall(), wd, "c13tlsstall")
@@ -590,6 +591,7 @@ def c14(res, tier, rng, wd):
     scs = e2.gen_c14(rng, tier == "thorough")
     run_e2(res, "C14", scs, wd, "c14")
     run_e2(res, "C14", e2.gen_serial_c14(rng, tier == "thorough"), wd, "c14serial")
+    design_rtu_server_task(res, "C14", ["DelayBounds", "ClosedForm"], ["NeverEarly", "ResetOnSuccess"], tier == "thorough")
     run_rtu_task(res, "C14", e1.gen_rtu_task_c14(rng, tier == "thorough"), wd, "c14rtuserver")
     res.assumptions = E2_ASSUME + ["delays are observed in virtual milliseconds: the announced delay (listener) and the instant of the next connection attempt"]
     return res.finish(rule="(min, max) grid incl. min = max, max < 2 min, max not a power-of-two multiple; patterns of k failed "
@@ -648,6 +650,21 @@ def design_client(res, pid, invariants, properties, thorough=False, neg=None, li
         n["Bug"] = f'"{bug}"'
         vf.design_run(res, pid, f"Client_MC-neg({bug})", "Client_MC.tla", "SpecMC", n,
                       invariants=[prop] if is_inv else [], properties=[] if is_inv else [prop], expect_violation=prop)
+
+
+def design_rtu_server_task(res, pid, invariants, properties, thorough=False, neg=False):
+    c = {"RMin": 1, "RMax": 4, "MaxTicks": 12 if thorough else 9, "MaxToggles": 4 if thorough else 3, "MaxFaults": 3 if thorough else 2,
+         "WaitRule": '"sleep_for"'}
+    vf.design_run(res, pid, "RtuServerTask_MC", "RtuServerTask_MC.tla", "Spec", c, invariants, properties, workers=4)
+    if thorough:
+        c2 = dict(c)
+        c2.update({"RMin": 2, "RMax": 5})
+        vf.design_run(res, pid, "RtuServerTask_MC(min 2, max 5)", "RtuServerTask_MC.tla", "Spec", c2, invariants, properties, workers=4)
+    if neg:
+        n = dict(c)
+        n["WaitRule"] = '"plain"'
+        vf.design_run(res, pid, "RtuServerTask_MC-neg(plain sleep)", "RtuServerTask_MC.tla", "Spec", n, [], ["ShutdownPrompt"],
+                      expect_violation="ShutdownPrompt", workers=2)
 
 
 def design_readbuf(res, pid, thorough=False):
